@@ -170,7 +170,18 @@ pub fn record_rewrite(a: &HashMap<String, String>) -> i32 {
                 let p = rng.pick(&pats).clone();
                 let mut fs: Vec<String> = p.iter().map(|c| match c["k"].as_str().unwrap() {
                     "lit" => c["v"].as_str().unwrap().to_string(),
-                    "alt" => c["v"][0].as_str().unwrap().to_string(),
+                    "alt" => {
+                        let alts: Vec<&str> = c["v"].as_array().unwrap().iter().map(|x| x.as_str().unwrap()).collect();
+                        match rng.below(6) {
+                            // near misses of an alternative pattern: a fragment of an alternative, the
+                            // empty feature, the text of the whole alternation - none of them is listed
+                            0 => rng.pick(&alts).chars().take(1).collect(),
+                            1 => rng.pick(&alts).chars().skip(1).collect(),
+                            2 => String::new(),
+                            3 => alts.join("|"),
+                            _ => rng.pick(&alts).to_string(),
+                        }
+                    }
                     _ => rng.pick(&alpha).to_string(),
                 }).collect();
                 for _ in 0..rng.below(3) {
@@ -250,10 +261,12 @@ pub fn gen_template(rng: &mut Rng, tag: &str, with_type: bool) -> Value {
         if j > 0 {
             parts.push(json!({"k": "lit", "v": if rng.chance(1, 2) { "," } else { "-" }}));
         }
+        // column indices: mostly 0..3, sometimes two digits (10..12)
+        let col = |rng: &mut Rng| -> usize { if rng.chance(1, 8) { 10 + rng.below(3) } else { rng.below(4) } };
         parts.push(match rng.below(6) {
-            0 | 1 => json!({"k": "opt", "i": rng.below(4)}),
+            0 | 1 => json!({"k": "opt", "i": col(rng)}),
             2 if with_type => json!({"k": "type"}),
-            _ => json!({"k": "ref", "i": rng.below(4)}),
+            _ => json!({"k": "ref", "i": col(rng)}),
         });
     }
     Value::Array(parts)
@@ -281,7 +294,7 @@ pub fn record_expand(a: &HashMap<String, String>) -> i32 {
         let t = gen_templates(&mut rng, same);
         let nrows = 1 + rng.below(8);
         let rows: Vec<Value> = (0..nrows).map(|_| {
-            let len = rng.below(5);
+            let len = if rng.chance(1, 3) { 10 + rng.below(4) } else { rng.below(5) };
             json!({"kind": rng.below(3), "feats": (0..len).map(|_| rng.pick(&vals).to_string()).collect::<Vec<_>>(), "cate": rng.below(4)})
         }).collect();
         writeln!(f, "{}", expand_event(&t, &Value::Array(rows))).unwrap();
@@ -321,7 +334,7 @@ pub fn record_fsets(a: &HashMap<String, String>) -> i32 {
         }
         let nrows = 1 + rng.below(6);
         let rows: Vec<(Vec<String>, u32)> = (0..nrows).map(|_| {
-            let len = 1 + rng.below(4);
+            let len = if rng.chance(1, 4) { 11 + rng.below(3) } else { 1 + rng.below(4) };
             ((0..len).map(|_| rng.pick(&vals).to_string()).collect(), rng.below(4) as u32)
         }).collect();
         let fdef = feature_def(&t);
